@@ -344,6 +344,10 @@ pub fn run(tape: &mut Tape, props: Props, thorough: bool, trace_on: bool) -> Out
     }
     let mut ic = icmp::Socket::new(icmp::PacketBuffer::new(vec![icmp::PacketMetadata::EMPTY; 4], vec![0u8; 512]), icmp::PacketBuffer::new(vec![icmp::PacketMetadata::EMPTY; 2], vec![0u8; 256]));
     ic.bind(icmp::Endpoint::Ident(0x2222)).unwrap();
+    // (a second bind on the open socket is refused and must leave the first one in force)
+    if tape.draw(2) == 0 {
+        let _ = ic.bind(icmp::Endpoint::Udp(IpListenEndpoint { addr: None, port: 7000 }));
+    }
     socks.push(Sk::Icmp(node.sockets.add(ic)));
     // (port 257 = 0x0101: what the first two octets of an IPv4 options field full of NOPs read as)
     let mut icu = icmp::Socket::new(icmp::PacketBuffer::new(vec![icmp::PacketMetadata::EMPTY; 4], vec![0u8; 1024]), icmp::PacketBuffer::new(vec![icmp::PacketMetadata::EMPTY; 2], vec![0u8; 256]));
@@ -424,6 +428,12 @@ fn body(c: &mut Inj, thorough: bool) -> Result<(), Violation> {
             c.hw_changed = true;
             c.view.hw_addr = if c.medium == Medium::Ethernet { V_MAC_2.to_vec() } else { V_LL8_2.to_vec() };
             c.stats.inc("inj.hardware-address-changed");
+        }
+        // now and then the application goes through its address list without changing it: group memberships stay
+        if c.script.is_empty() && c.tape.draw(30) == 0 {
+            let iface = &mut c.node.iface;
+            guard("Interface::update_ip_addrs", || iface.update_ip_addrs(|_| {}))?;
+            c.stats.inc("inj.addresses-reapplied");
         }
         let forced = c.script.pop();
         let v6 = !c.two_v4 && (c.v4.is_none() || c.tape.draw(2) == 1) && forced.is_none();
@@ -669,7 +679,9 @@ fn body(c: &mut Inj, thorough: bool) -> Result<(), Violation> {
         // valid UDP datagram sent from the watched port is a valid datagram for the ICMP socket bound to that port: it
         // is delivered, once (the socket's buffer is drained after every frame, so there is room)
         if c.props.has("C09") && !c.props.has("C11") {
-            let from_a_peer = hbh.is_none() && l2 == L2Class::Own && matches!(dc, DstClass::Own | DstClass::Own2) && matches!(sc, SrcClass::OnLink | SrcClass::OffLink | SrcClass::OnLink2) && !is_arp;
+            // (a datagram to a group the application joined is for the node as well)
+            let to_joined_group = dc == DstClass::JoinedGroup && if v6 { c.joined6 } else { c.joined4 };
+            let from_a_peer = hbh.is_none() && l2 == L2Class::Own && (matches!(dc, DstClass::Own | DstClass::Own2) || to_joined_group) && matches!(sc, SrcClass::OnLink | SrcClass::OffLink | SrcClass::OnLink2) && !is_arp;
             // the same for a plain UDP datagram to a bound port: it reaches the first socket whose endpoint matches,
             // once, whole (the buffers are drained after every frame)
             let judge_udp = from_a_peer && l4p == P_UDP;
@@ -677,7 +689,8 @@ fn body(c: &mut Inj, thorough: bool) -> Result<(), Violation> {
                 let mut expected: Option<usize> = None;
                 for i in 0..c.socks.len() {
                     if let Sk::Udp(_, port, bound) = &c.socks[i] {
-                        if *port != 0 && Some(*port) == udp_dport && (bound.is_none() || *bound == Some(dst)) && expected.is_none() {
+                        // (a socket bound to an address also takes datagrams to a multicast destination on its port)
+                        if *port != 0 && Some(*port) == udp_dport && (bound.is_none() || *bound == Some(dst) || dst.is_multicast()) && expected.is_none() {
                             expected = Some(i);
                         }
                     }
@@ -820,6 +833,20 @@ fn body(c: &mut Inj, thorough: bool) -> Result<(), Violation> {
                     c.stats.inc("inj.icmp-error-delivered-to-the-port-watcher");
                     if !(is_err && quoted_sport == Some(port)) {
                         return Err(viol("C11", "endpoint-match", "C11.endpoint/icmp-socket-bound-to-a-udp-port-received-an-error-about-another-port", format!("the ICMP socket watching UDP port {} received a message although the packet delivered was: {} (quoted source port {:?})", port, summary, quoted_sport)));
+                    }
+                }
+            }
+        }
+        // 5c. the ICMP socket bound to an identifier only ever gets echo replies carrying that identifier
+        for i in 0..c.socks.len() {
+            if let Sk::Icmp(h) = &c.socks[i] {
+                let h = *h;
+                let so = c.node.sockets.get_mut::<icmp::Socket>(h);
+                while let Ok((data, _from)) = so.recv() {
+                    c.stats.inc("inj.icmp-delivered-to-the-ident-socket");
+                    let ok = data.len() >= 8 && (data[0] == 0 || data[0] == 129) && data[4] == 0x22 && data[5] == 0x22;
+                    if !ok {
+                        return Err(viol("C11", "endpoint-match", "C11.endpoint/icmp-socket-bound-to-an-identifier-received-another-message", format!("the ICMP socket bound to identifier 0x2222 received a message of type {} although the packet delivered was: {}", data.first().copied().unwrap_or(0), summary)));
                     }
                 }
             }
